@@ -46,6 +46,24 @@ func profileFor(check, tier, variant string) *CheckDef {
 		if thorough {
 			d.MaxOps = 60
 		}
+	case "C02":
+		d.MinClients, d.MaxClients = 1, 3
+		d.MinOps, d.MaxOps = 4, 14
+		d.FSOnly, d.Images, d.AckedOnly, d.Torn = true, true, true, true
+		d.PostRun = crashPostRun
+		if thorough {
+			d.MaxOps = 25
+		}
+	case "C03":
+		d.MinClients, d.MaxClients = 1, 2
+		d.MinOps, d.MaxOps = 3, 10
+		d.FSOnly, d.Images, d.AckedOnly, d.Torn = true, true, true, true
+		d.ForkDepth = 2
+		d.PostRun = crashPostRun
+		if thorough {
+			d.MaxOps = 16
+			d.ForkDepth = 3
+		}
 	case "selftest":
 		d.MinClients, d.MaxClients = 1, 4
 		d.MinOps, d.MaxOps = 3, 10
